@@ -58,3 +58,22 @@ example : (replaceOut [.equal 0 0 1, .equal 1 1 1, .insert 2 2 1, .delete 2 1 3,
     .ok [.op (.equal 0 0 2), .op (.replace 2 1 2 3), .op (.equal 3 5 1), .finish] := by rfl
 
 end SimilarVerif.C10
+
+namespace SimilarVerif.C10
+open SimilarVerif Spec
+
+/-- **Observation recorded as a theorem (DESIGN.md §6, "dead code in `compact.rs`"): deletions never slide.**
+The two "shift deletions" arms of `shift_diff_ops_up` / `shift_diff_ops_down` measure the common suffix / prefix of
+the neighbouring Equal op's OLD range against `this_op.new_range()` — which is empty for a Delete. So the length
+they compute is 0 for EVERY environment and every op list, no comparison is made, and the bodies of those arms (and
+the Equal op they would insert with `len: old_range.len() - suffix_len`) are unreachable. The model keeps the arms
+as written in the Rust; this is why no validator and no mutant in those lines can ever be observed. -/
+theorem delete_arm_never_slides (E : Env) (prev this : Op) (w : World) (h : this.tag = .delete) :
+    commonSuffixLen E prev.oStart prev.oEnd this.nStart this.nEnd w = .ok (0, w) ∧
+    commonPrefixLen E prev.oStart prev.oEnd this.nStart this.nEnd w = .ok (0, w) := by
+  cases this <;> simp [Op.tag] at h
+  simp [commonSuffixLen, commonPrefixLen, Op.nStart, Op.nEnd, Op.nLen]
+
+#print axioms delete_arm_never_slides
+
+end SimilarVerif.C10
